@@ -987,3 +987,117 @@ class ProviderBaseUrls(ScanCheck):
                                         bad.append((mname, cname, fn.name, src))
         out.append(('managers_take_base_urls_only_from_the_provider', not bad, {'sites': str(bad)[:300]}))
         return out
+
+
+@register
+class NoConnectionOutsideTheSoapClients(ScanCheck):
+    id = 'C19.no_connection_outside_the_soap_clients'
+    prop = 'C19'
+    doc = ('frame over every module of the sdc11073 package: outgoing connections are opened only by the two soap client '
+           'modules (pysoap/soapclient.py: HTTP(S)Connection chosen by the ssl context, C19.http_connection_kind; '
+           'pysoap/soapclient_async.py: aiohttp session with the ssl context) - which the provider / consumer obtain through '
+           'the factories proved to attach the TLS client context (C19.provider_soap_client, C19.consumer_soap_client). '
+           'No other module imports a network client library (urllib.request, requests, httpx, urllib3, ftplib, smtplib, '
+           'xmlrpc.client, ...), names an http.client / aiohttp connection class, or opens a stream socket; http.client and '
+           'aiohttp appear elsewhere only for their exception classes, sockets only in the UDP discovery and the listening '
+           'http server')
+
+    CLIENT_LIBS = ('urllib.request', 'requests', 'httpx', 'urllib3', 'ftplib', 'smtplib', 'telnetlib', 'xmlrpc.client',
+                   'websockets', 'websocket', 'pycurl', 'asyncio.streams')
+    CONNECTION_NAMES = {'HTTPConnection', 'HTTPSConnection', 'ClientSession', 'TCPConnector', 'create_connection',
+                        'open_connection', 'urlopen', 'urlretrieve', 'build_opener'}
+    SOAP_CLIENTS = ('sdc11073/pysoap/soapclient.py', 'sdc11073/pysoap/soapclient_async.py')
+    SOCKET_USERS = ('sdc11073/wsdiscovery/', 'sdc11073/httpserver/', 'sdc11073/network.py')
+
+    def scan(self, repo):
+        import os
+        root = os.path.join(repo.roots[0], 'sdc11073')
+        bad_imports, bad_names, bad_sockets, n_files = [], [], [], 0
+        for dirpath, _dirs, files in os.walk(root):
+            for fn in sorted(files):
+                if not fn.endswith('.py'):
+                    continue
+                path = os.path.join(dirpath, fn)
+                rel = os.path.relpath(path, repo.roots[0]).replace(os.sep, '/')
+                n_files += 1
+                if rel in self.SOAP_CLIENTS:
+                    continue
+                with open(path) as f:
+                    tree = ast.parse(f.read())
+                for n in ast.walk(tree):
+                    if isinstance(n, ast.Import):
+                        for a in n.names:
+                            if any(a.name == lib or a.name.startswith(lib + '.') for lib in self.CLIENT_LIBS):
+                                bad_imports.append((rel, n.lineno, a.name))
+                    elif isinstance(n, ast.ImportFrom) and n.module:
+                        full = [f'{n.module}.{a.name}' for a in n.names]
+                        if any(n.module == lib or n.module.startswith(lib + '.') or f in self.CLIENT_LIBS
+                               for lib in self.CLIENT_LIBS for f in full):
+                            bad_imports.append((rel, n.lineno, n.module))
+                        for a in n.names:
+                            if a.name in self.CONNECTION_NAMES:
+                                bad_names.append((rel, n.lineno, f'{n.module}.{a.name}'))
+                    elif isinstance(n, ast.Attribute) and n.attr in self.CONNECTION_NAMES:
+                        bad_names.append((rel, n.lineno, ast.unparse(n)))
+                    elif isinstance(n, ast.Name) and n.id in self.CONNECTION_NAMES:
+                        bad_names.append((rel, n.lineno, n.id))
+                    if isinstance(n, ast.Call) and ast.unparse(n.func) in ('socket.socket', 'socket.create_connection', 'socket.socketpair') \
+                            and not rel.startswith(self.SOCKET_USERS):
+                        bad_sockets.append((rel, n.lineno, ast.unparse(n.func)))
+        return [('package_scanned', n_files > 50, {'files': n_files}),
+                ('no_network_client_library_outside_the_soap_clients', not bad_imports, {'found': str(bad_imports)[:300]}),
+                ('no_connection_class_named_outside_the_soap_clients', not bad_names, {'found': str(bad_names)[:300]}),
+                ('no_stream_socket_outside_discovery_and_server', not bad_sockets, {'found': str(bad_sockets)[:300]})]
+
+
+SA = 'sdc11073.pysoap.soapclient_async'
+
+
+@register
+class AsyncConnectionKind(FnCheck):
+    id = 'C19.async_connection_kind'
+    prop = 'C19'
+    opaque_ok = True
+    target = f'{SA}:SoapClientAsync._mk_http_connection'
+    optional_fields = ('_ssl_context',)
+    doc = ('SoapClientAsync opens its aiohttp session with base url "https://<netloc>/" and a connector that carries its '
+           'ssl context iff it has one; a plain "http://" session only without a context')
+
+    def setup(self, b):
+        self.has = b.bool('has_ssl_context')
+        self.ctx = b.obj('ssl_context', cls='SSLContext')
+        self.o = b.obj('self', cls=(SA, 'SoapClientAsync'), _netloc=b.str('netloc'), _socket_timeout=b.int('timeout'),
+                       _ssl_context=vany(z3.If(self.has.e, Val.ref(self.ctx.e), Val.none), maybe_none=True))
+        return self.o, [], {}
+
+    def callees(self, ex):
+        def connector(ex_, st, args, kwargs):
+            o = st.alloc('TCPConnector')
+            st.ghost['c:connector'] = (o, st.box(kwargs.get('ssl', NONE)), bool(args))
+            return o
+
+        def session(ex_, st, args, kwargs):
+            st.ghost['c:session'] = (args[0], st.box(kwargs.get('connector', NONE)))
+            return st.alloc('ClientSession')
+        return {f'{SA}:TCPConnector': Pure(connector, name='aiohttp TCPConnector(ssl=...)'),
+                'aiohttp.client.TCPConnector': Pure(connector, name='aiohttp TCPConnector(ssl=...)'),
+                f'{SA}:ClientSession': Pure(session, name='aiohttp ClientSession(base_url, connector=...)'),
+                'aiohttp.client.ClientSession': Pure(session, name='aiohttp ClientSession(base_url, connector=...)'),
+                f'{SA}:ClientTimeout': Pure(lambda e, s, a, k: s.alloc('ClientTimeout'), name='ClientTimeout'),
+                'aiohttp.client.ClientTimeout': Pure(lambda e, s, a, k: s.alloc('ClientTimeout'), name='ClientTimeout')}
+
+    def post(self, ex, st0, st, outcome, b):
+        if outcome[0] == 'exc':
+            ex.oblige(st, 'never_raises', z3.BoolVal(False), info={'exc': repr(outcome[1])})
+            return
+        sess, conn = st.ghost.get('c:session'), st.ghost.get('c:connector')
+        ex.oblige(st, 'one_session_over_one_connector', z3.BoolVal(sess is not None and conn is not None))
+        if sess is None or conn is None:
+            return
+        url = ex.concrete_kind(st, sess[0], ('str',))
+        ex.oblige(st, 'session_uses_the_connector_built_here', sess[1] == Val.ref(conn[0].e))
+        ex.oblige(st, 'connector_carries_the_ssl_context_iff_configured',
+                  conn[1] == z3.If(self.has.e, Val.ref(self.ctx.e), Val.none) if not conn[2] else z3.BoolVal(False))
+        ex.oblige(st, 'https_base_url_iff_context', z3.And(
+            z3.Implies(self.has.e, z3.PrefixOf(z3.StringVal('https://'), url.e)),
+            z3.Implies(z3.Not(self.has.e), z3.PrefixOf(z3.StringVal('http://'), url.e))) if url.kind == 'str' else z3.BoolVal(False))
